@@ -319,8 +319,19 @@ Definition changed_match (chs : list rpath) (p : path) : bool :=
   let '(e, c_, a) := p in
   existsb (fun q => let '(qe, qc, qa) := q in omatch qe e && omatch qc c_ && omatch qa a) chs.
 
+(** every notified change bumps the data version of the cluster(s) it names ([bump_dataver]) *)
+Definition bumps (chs : list rpath) (cl : clus) : N :=
+  N.of_nat (length (filter (fun q => let '(qe, qc, _) := q in omatch qe (cl_ep cl) && omatch qc (cl_id cl)) chs)).
+
+Definition bump_node (nd : node) (chs : list rpath) : node :=
+  map (fun cl => mkClus (cl_ep cl) (cl_id cl) ((cl_dv cl + bumps chs cl) mod 4294967296) (cl_attrs cl)) nd.
+
+(** The work list of a change report: the subscribed paths expanded over the node as it is now,
+    restricted to what changed.  The data-version filters of the subscribe request play no part
+    ([ReportDataReq::SubscribeReport] has none): they apply to the priming report only, so a change
+    that brings a cluster to exactly a filtered version is reported like any other. *)
 Definition report_items_of (nd : node) (qs chs : list rpath) : list item :=
-  filter (fun it => changed_match chs (item_path it)) (items_of nd [] qs).
+  filter (fun it => changed_match chs (item_path it)) (items_of (bump_node nd chs) [] qs).
 
 (** events of the synthetic node: every cluster declares the events 1, 2, 3 *)
 Record evspec := mkEvspec { es_path : path; es_prio : N; es_len : N; es_ts : N }.
